@@ -8,6 +8,7 @@
 EXTENDS Integers, Sequences, FiniteSets, TLC, Json
 
 CONSTANTS MaxPubs, MaxSubs, MaxTopics, MaxWriters, MaxReaders, MaxCfts, TopicNames, MaxOps,
+          ChurnAt,   \* positions of a history at which Churn may happen ({}: never)
           Warm   \* harness parameter: create/delete cycles done before the replay so that the 8-bit entity counters wrap inside it
 
 VARIABLES pubs, subs, topics, writers, readers,   \* id -> record; every created entity stays in the map
@@ -141,8 +142,15 @@ DeleteParticipant ==
     /\ Same(<<pubs, subs, topics, writers, readers, cfts>>)
 
 Emit == PrintT(<<"EDGE", ToJson([s |-> Proj, o |-> lastOp', d |-> Proj'])>>)
+\* 255 publishers and 255 subscribers are created and deleted again: nothing changes in the entity tree, but the 8-bit
+\* counters behind the handles of groups go once around WHILE the entities of the history so far are alive
+Churn ==
+    /\ Tick /\ nOps \in ChurnAt
+    /\ Same(<<pubs, subs, topics, writers, readers, gone, cfts>>)
+    /\ lastOp' = Op("Churn", [n |-> 255], "Ok", "churn")
+
 Step ==
-    \/ CreatePub \/ CreateSub \/ DeleteContained \/ DeleteParticipant
+    \/ CreatePub \/ CreateSub \/ DeleteContained \/ DeleteParticipant \/ Churn
     \/ \E n \in TopicNames : CreateTopic(n)
     \/ \E p \in 1..MaxPubs : DeletePub(p) \/ \E t \in 1..MaxTopics : CreateWriter(p, t) \/ \E w \in 1..MaxWriters : DeleteWriter(p, w)
     \/ \E s \in 1..MaxSubs : DeleteSub(s) \/ \E t \in 1..MaxTopics : CreateReader(s, t) \/ \E r \in 1..MaxReaders : DeleteReader(s, r)
